@@ -7,16 +7,23 @@ ID = 'C01'
 LEVEL = 'proof'
 RULE = ('exhaustive: every shape of rank 1..R with extents 1..E, every flat offset (strides, indices, ndindex) and every '
         'multi-index (offset, row- and column-major ndarray read/write); container kinds vec/std::array/static_vector; '
-        'random shapes with prod near 2^31 / 2^40 at index level. non-trivial = shape has >= 2 axes with extent > 1')
+        'random shapes with prod near 2^31 / 2^40 at index level; machine width: int32 / uint32 / int64 / uint64 element types x '
+        'vec/std::array/static_vector (and mixed pairs for compute_offset) on shapes whose element count and leading stride straddle '
+        '2^31, 2^32, 2^40, 2^63, 2^64, offsets at the marks +-1, last element, leading axis at its maximum, random (exact Python integers). '
+        'non-trivial = shape has >= 2 axes with extent > 1')
 EXHAUSTIVE = {'quick': True, 'thorough': True}
 ANCHORS = {'NmVerif.strides': 'index::compute_strides', 'NmVerif.computeOffset': 'index::compute_offset',
            'NmVerif.computeIndices/ndindex': 'index::compute_indices, index::ndindex_t::operator[]',
-           'NmVerif.NDA.get?/set': 'array::ndarray_t::operator() with row_major_offset_t / column_major_offset_t'}
+           'NmVerif.NDA.get?/set': 'array::ndarray_t::operator() with row_major_offset_t / column_major_offset_t',
+           'NmVerif.mStrides/mStrideFrom': 'index::stride / index::compute_strides with the suffix product formed in the element type of the shape container',
+           'NmVerif.mOffset': 'index::compute_offset: every operand widened to nm_size_t before the multiplication (run-time loop and template_for branch)',
+           'NmVerif.mIndices/mNdindex': 'index::compute_indices (3- and 2-argument forms) with 64-bit quotient/remainder stored into the element type of the shape'}
 MANIFEST = dict(
-    text='Proof: 16 Lean theorems (round trip both ways, in-shape, suffix-product strides, enumeration = lexicographic list of all multi-indices without repetition, row/column-major get/set laws) for every rank and extent; tied to the C++ by an exhaustive small-scope + large-extent differential run of compute_strides/compute_offset/compute_indices/ndindex/ndarray_t access on every check.',
-    note='Lean kernel + propext/Classical.choice/Quot.sound; model hand-written, fidelity rests on the correspondence run; unbounded Nat in the model, machine width covered by intermediates_le_prod and extents near 2^31/2^40; compile-time-constant and clipped argument kinds of compute_strides / compute_offset / compute_indices / product / ndindex run over a fixed table in a generated TU (harness/gen_c01_ct.py); the full kind matrix is C09.',
+    text='Proof: 27 Lean theorems (round trip both ways, in-shape, suffix-product strides, enumeration = lexicographic list of all multi-indices without repetition, row/column-major get/set laws; machine-width model with the element type of the index containers as a parameter: strides / offset / indices / both round trips are exact whenever extents and the leading stride fit the element type and the element count is at most 2^64, with counterexamples outside) for every rank and extent; tied to the C++ by an exhaustive small-scope + large-extent differential run of compute_strides/compute_offset/compute_indices/ndindex/ndarray_t access on every check.',
+    note='Lean kernel + propext/Classical.choice/Quot.sound; model hand-written, fidelity rests on the correspondence run; unbounded Nat in the base model; machine width: NmVerif.Index.MachineAddr models 32/64-bit signed/unsigned element types and 64-bit nm_size_t (mStrides_exact, computeOffset_widened_exact, mIndices_exact, machine round trips) and is compared with the real code on 32/64-bit containers of every run-time kind up to 2^64 (h_c01w); compile-time-constant and clipped argument kinds of compute_strides / compute_offset / compute_indices / product / ndindex run over a fixed table in a generated TU (harness/gen_c01_ct.py); the full kind matrix is C09.',
     technique='Lean 4 induction proofs over List Nat shapes + differential correspondence (exhaustive small scope)')
-ASSUMPTIONS = ['size_t arithmetic does not wrap: Props.C01.intermediates_le_prod + large-extent cases below 2^40',
+ASSUMPTIONS = ['nm_size_t is 64 bit (SZ = 2^64 in NmVerif.Index.MachineAddr; the harness platform); element types narrower than int (integral promotion) are not modelled',
+               'signed overflow in index::stride is undefined behaviour: modelled as `none`, signed off-domain inputs are compared with the Python oracle only',
                'compile-time-constant and clipped index kinds are covered by C09 kind matrix, not here']
 
 
